@@ -11,4 +11,6 @@ macro_rules! info { ($($t:tt)*) => { () } }
 macro_rules! warn { ($($t:tt)*) => { () } }
 macro_rules! error { ($($t:tt)*) => { () } }
 macro_rules! format { ($($t:tt)*) => { crate::opaque_string() } }
-macro_rules! panic { ($($t:tt)*) => { crate::diverge() } }
+// M3: `panic!(..)` in an extracted body is rewritten to `verif_panic!(..)` (the std macro cannot be shadowed:
+// vstd's own expansions use it); it stands for thread abort = divergence (A-panic).
+macro_rules! verif_panic { ($($t:tt)*) => { crate::diverge() } }
